@@ -92,9 +92,9 @@ RowClause(rq) == CASE rq.k = "slice"  -> "slice_rule"        \* a slice follows 
                    [] rq.k = "list"   -> "row_list"          \* distinct rows in ascending order
                    [] rq.k = "scalar" -> "scalar_row"
                    [] OTHER           -> "all_rows"
-ShapeClause(cq, opt) == IF cq.k = "name" THEN "plain_column"  \* a single name yields a plain array
+ShapeClause(cq, opt) == IF opt = "reduce" THEN "reduce"
+                        ELSE IF cq.k = "name" THEN "plain_column"  \* a single name yields a plain array
                         ELSE IF opt = "split" THEN "split"
-                        ELSE IF opt = "reduce" THEN "reduce"
                         ELSE "structured"
 
 Failing(n, q, o) ==
